@@ -195,6 +195,8 @@ def check(index, ctx):
                         "T", "TrimmedMean.forward: sort axis and direction", "ascending sort along the row axis",
                         f"sort along axis {s['axis']} (descending={s.get('descending')}) instead of ascending along the rows", s["loc"])
             chain = [e for e in ops if e["sop"] in ("slice", "narrow", "topk") and s["id"] in e["in_origin"] and e.get("axis_pos") == s["axis_pos"]]
+            if len([e for e in chain if e["id"] in r.value.origin]) < len(chain):
+                chain = [e for e in chain if e["id"] in r.value.origin]  # (sections that are cut but not used — `_, kept, _ = sorted.split([b, m - 2b, b])` — are not on the value path)
             start, stop, problems = window_of(chain, m, ctx, "T", key, cls.loc())
             good = not problems and start == b and stop == m - b
             ctx.require(good, "T", "TrimmedMean.forward: trimming window",
